@@ -207,6 +207,22 @@ def main(tier="quick"):
                 q = f"ds.SelectMany(lambda e: e.{coll}('A')).Select(lambda j: {expr})"
                 cases.append(Case(pid, backend, q, md, {"function": n, "context": ctx}))
                 pid += 1
+    # ---- history: an EARLIER query on the same executor brought its own C++ function called like a documented one (legal: a
+    # query may declare any function name); the later plain query must still get the documented function of that name
+    for backend in backends:
+        md = tuple(qgen.method_metadata(qgen.ALPHA[backend]))
+        coll = qgen.ALPHA[backend].primary
+        for n in names:
+            if n in NOT_CALLABLE or n in NOT_COMPARABLE:
+                continue
+            nargs = len(TABLE[n][0])
+            own = {"metadata_type": "add_cpp_function", "name": n, "include_files": [], "arguments": [f"a{i}" for i in range(nargs)],
+                   "code": ["double result = 12345.5;"], "return_type": "double"}
+            prior_q = f"ds.SelectMany(lambda e: e.{coll}('A')).Select(lambda j: {call_text(n)})"
+            for ctx, tmpl in (("after-own-declaration", "{f}"), ("after-own-declaration-plus", "({f} + 1)")):
+                q = f"ds.SelectMany(lambda e: e.{coll}('A')).Select(lambda j: {tmpl.format(f=call_text(n))})"
+                cases.append(Case(pid, backend, q, md, {"function": n, "context": ctx, "prior": [(prior_q, list(md) + [own])]}))
+                pid += 1
     res = execute(cases, events, chunk_size=40, post=post, keep_files=True)
     # header check needs the files: do it through a second cheap translation pass in-process (one per function)
     from mc.core.pipeline import translate_case
